@@ -273,6 +273,20 @@ def audit_axioms(module, names, timeout=900):
 
 
 # ---------------------------------------------------------------- findings
+def known_match(mod, v):
+    """The `known` entry of known_findings.json that lists the violation v = {"kind", "case", ...} of property mod.ID, or None
+    (used by replays: a replay fails only for a violation the file does not list, like the check itself)."""
+    for k in load_known().get("known", []):
+        if k.get("property") != mod.ID:
+            continue
+        try:
+            if mod.match_known(k, v):
+                return k
+        except Exception:  # noqa
+            continue
+    return None
+
+
 def load_known():
     if not os.path.exists(KNOWN_FILE):
         return {"known": [], "fixed": []}
